@@ -21,7 +21,14 @@ head = ("%d changes written by sub-agents that saw only the property text (and, 
         "lesson of these rounds: extents beyond internal block sizes (64 samples per group, 32/128 rows, 8 lanes),\n"
         "two instances of a structure (two feedback blocks, two loop connections, a shared skip source), special\n"
         "float values in every tensor path, optional arguments (`print`, one-sided clamps), architectures without\n"
-        "a dense layer, exact zeros in optimizer state, equal element counts with different dimensions. They are now\n"
+        "a dense layer, exact zeros in optimizer state, equal element counts with different dimensions; from round 6\n"
+        "on: extents beyond 2^10 and 2^16 elements, many repetitions / iterations / epochs, degenerate arguments\n"
+        "(tolerances, dropout rates, hyper-parameters, step numbers, early-stopping windows, empty tensors),\n"
+        "saturated and subnormal values, every activation on every layer kind, and - the largest group in the last\n"
+        "rounds - CALL HISTORY and ALIASING: gradients after the library's own updates, a second call of learn,\n"
+        "validate after learn, a refused call before valid ones, one tensor object passed several times. For call\n"
+        "history the tie has driver commands 10-12 (two learns, two learns with validation, a script of learn /\n"
+        "validate / predict / backward / predict_batch calls on ONE network object). They are now\n"
         "generated deterministically in the quick tier. Two round-1 patches no longer apply because the code they\n"
         "patch was replaced by a fix commit. `tools/mutants_all.sh` re-applies every stored change and expects\n"
         "exit 1 from the property's check.\n\n"
